@@ -40,7 +40,7 @@ inline long long RowLegalizer::getDisplacement(int width, int targetPos,
       std::min(end_ - usedSpace() - width,
                std::max(begin_, slope >= 0 ? cur_pos : targetAbsPos));
 
-  cur_cost += (cur_pos - finalAbsPos) * (slope + width);
+  cur_cost += static_cast<long long>(cur_pos - finalAbsPos) * (slope + width);
 
   assert(finalAbsPos >= begin_);
   assert(finalAbsPos <= end_ - usedSpace() - width);
@@ -63,8 +63,9 @@ inline long long RowLegalizer::getDisplacement(int width, int targetPos,
   }
 
   return cur_cost +
-         width * std::abs(finalAbsPos -
-                          targetAbsPos);  // Add the cost of the new cell
+         static_cast<long long>(width) *
+             std::abs(finalAbsPos -
+                      targetAbsPos);  // Add the cost of the new cell
 }
 
 long long RowLegalizer::getCost(int width, int targetPos) {
